@@ -39,6 +39,7 @@ declare -A PROP=(
  ["a bus Send that runs out of time at one listener"]="C10"
  ["a Value subscriber skips the event of a write"]="C04"
  ["a brightness fade ends quietly"]="C02"
+ ["an open/close update that spans several positions"]="C14"
 )
 git -C /repo log --format='%h %s' | grep ' fix: ' | while read -r h subj; do
   prop=""
